@@ -439,7 +439,6 @@ func (h *c11SvcHarness) exhausted() bool { return h.next+2 > c11SvcLast }
 // judge sends h.n packets to each service and checks every delivery against the model.
 func (h *c11SvcHarness) judge(hist string, svcNo [2]addr.SVC, model [2]map[netip.AddrPort]bool, ever [2]map[netip.AddrPort]bool, rot int) {
 	for s := 0; s < 2; s++ {
-		seen := map[netip.AddrPort]bool{}
 		for k := 0; k < h.n; k++ {
 			car := h.carriers[(rot+k)%len(h.carriers)]
 			dst := rtr.SVC(uint16(svcNo[s]))
@@ -473,7 +472,6 @@ func (h *c11SvcHarness) judge(hist string, svcNo [2]addr.SVC, model [2]map[netip
 			}
 			got := res.Fast.Remote.AddrPort()
 			got = netip.AddrPortFrom(got.Addr().Unmap(), got.Port())
-			seen[got] = true
 			switch {
 			case model[s][got]:
 				h.r.Outcome("svc-history:to-registered-instance")
@@ -484,9 +482,6 @@ func (h *c11SvcHarness) judge(hist string, svcNo [2]addr.SVC, model [2]map[netip
 			default:
 				h.r.Violation("svc-history:sent-to-address-never-registered", detail("one of the registered instances (none: not delivered)"))
 			}
-		}
-		if len(model[s]) > 0 && len(seen) == len(model[s]) {
-			h.r.Outcome("svc-history:every-registered-instance-used")
 		}
 	}
 }
@@ -548,7 +543,7 @@ func TestC11(t *testing.T) {
 		"path; thorough: every delivering case) x destinations {IPv4, IPv6, SVC CS (2 instances), CS multicast, DS, unregistered} x 23 " +
 		"L4 kinds (UDP, TCP, SCMP echo/traceroute request+reply, 5 SCMP error types quoting UDP, truncated quotes, quotes of SCMP, " +
 		"unknown types) x boundary ports of the range {0,1,1023,1024,start-1,start,end,end+1,30041,30042,65535}; distinct key = all of " +
-		"these; non-trivial = all. Service registration histories: every sequence of up to 4 (thorough 5) AddSvc/DelSvc calls over {service A: 3 " +
+		"these; non-trivial = all. Service registration histories: every sequence of up to 4 (thorough 6) AddSvc/DelSvc calls over {service A: 3 " +
 		"instances, service B: 2 instances, one address shared} on a raw and a start-up-configured router (each history on service numbers " +
 		"never used before on that router), judged in its final state with 16 packets per service (rotating carriers, base and multicast " +
 		"address); plus CS and DS with 3+2 instances registered in every order and de-registered in every order on freshly built routers, " +
@@ -721,7 +716,7 @@ func TestC11(t *testing.T) {
 				next: c11SvcFirst, n: 16}
 		}
 		alpha := c11SvcAlphabet()
-		depth := mc.Pick(4, 5)
+		depth := mc.Pick(4, 6)
 		// (a) every history over the alphabet up to the depth bound: one job per (site, first two events)
 		type hjob struct {
 			site   int
